@@ -73,6 +73,7 @@ def check(scn, seed, models=None, skipped=None):
                   "reply": "asl_workflow_reply_to%s-inst0" % sfx}
         for k, p in enumerate(scn["poison"]):
             def pub(p=p, k=k):
+                res.sim.count("poison-message")
                 res.sim.broker.basic_publish(pch.rec, "", queues[p["to"]], p["body"].encode(),
                                              Props(content_type="application/json", message_id="poison-%d" % k,
                                                    correlation_id="poison-cid-%d" % k if p["to"] == "reply" else None))
